@@ -260,7 +260,7 @@ def build_kwargs(problem, cfg, trace, hooks=None, checkpoint=None, x0=None):
             r_ = np.full(2 * n_, float(cfg["finite_diff_rel_step"]))
             kw["finite_diff_rel_step"] = r_[::2]
     for k in ("maxcor", "maxls", "maxiter", "maxfun", "ftol", "eps", "finite_diff_rel_step", "iprint",
-              "ftol_linesearch", "gtol_linesearch", "xtol_linesearch", "eps_SY", "max_steplength"):
+              "ftol_linesearch", "gtol_linesearch", "xtol_linesearch", "eps_SY", "max_steplength", "is_check_factorization"):
         if k in cfg and cfg[k] is not None and k not in kw:
             kw[k] = cfg[k]
     if "gtol_obj" in hooks:
